@@ -628,7 +628,10 @@ class Block:
         def get_variables(start: int, end: int) -> List[int]:
             nonlocal factor, level_count, start_idx
             n = self.variables_for_factor(factor, start, end) // level_count
-            return reduce(lambda l, v: l + [start_idx + ((v + start) * level_count)], range(n), [])
+            # The factor's variables are numbered by the trials it applies to, so
+            # skip as many as apply before `start` (not `start` itself).
+            first = (self.variables_for_factor(factor, 0, start) // level_count) if start > 0 else 0
+            return reduce(lambda l, v: l + [start_idx + ((v + first) * level_count)], range(n), [])
         return self.map_block_trial_ranges(within_block, get_variables)
 
     def sustain_count(self, f: Factor):
